@@ -7,6 +7,16 @@ PENDING = "check not built yet in this session (construction order: DESIGN.md se
 NOT_APPLICABLE = {("C%02d" % i): PENDING for i in range(1, 21)}
 
 TEXT = {
+    "C07": {
+        "text": "Round trip with arbitrary trailing bytes for all nine encoders and every in-domain value, the nibble layout of BCD/LBCD, upper-case hex, "
+                "bijectivity of the EBCDIC tables and their agreement with hand-entered CP500/CP1047 reference points, the BER tag continuation rule "
+                "(accepts exactly well-formed tags), rejection of negative/short input and soundness of accepted decodes are theorems about the model; "
+                "the EBCDIC tables the theorems speak about are regenerated from the source on every run, and the model is run against the Go encoders "
+                "on exhaustive small and random large inputs.",
+        "design_ref": "DESIGN.md section 6 C07",
+        "note": "Trusted: Coq kernel, hand-written model of encoding/*.go incl. the third-party BCD codec and CP1047 charmap (validated by correspondence), translator dump of the tables, extraction/driver, Go harness.",
+        "technique": "Rocq theorems over a Gallina model + generated tables + differential correspondence",
+    },
     "C20": {
         "text": "The padding laws are theorems (for every pad byte, value and target length, no bound) about the Gallina model of padding/*.go, "
                 "including an explicit model of append into the caller's spare capacity; the model is tied to the Go padders by running both on the same "
